@@ -17,7 +17,7 @@ from sim.driver import Report
 PROP = "C12"
 TIERS = {"quick": {"pairs": 100, "envs": 7, "budget": 70.0}, "thorough": {"pairs": 1200, "envs": 12, "budget": 1500.0}}
 SCRATCH = "/dev/shm" if os.path.isdir("/dev/shm") else tempfile.gettempdir()
-E0 = {"route": "api", "heap": 0, "dir_seed": 0, "clock": "2001-02-03T04:05:06", "history": [], "cache": 0, "repeat": 1, "history_same_package": 0, "environ": None}
+E0 = {"route": "api", "heap": 0, "dir_seed": 0, "clock": "2001-02-03T04:05:06", "history": [], "cache": 0, "repeat": 1, "history_same_package": 0, "environ": None, "source_copy": None}
 ROUTES = ["api", "api_file", "cli_flags", "cli_config", "cli_mixed"]
 
 
@@ -43,6 +43,7 @@ def sources():
         ("sink_registry", os.path.join(core.VERIF, "sim", "c12", "schemas", "sink", "registry.xsd"), False, 2),
         ("xml_samples", os.path.join(core.VERIF, "sim", "c12", "samples", "xmldocs"), False, 2),
         ("json_samples", os.path.join(core.VERIF, "sim", "c12", "samples", "jsondocs"), False, 2),
+        ("xmlimport", os.path.join(core.VERIF, "sim", "c12", "schemas", "xmlimport", "article.xsd"), False, 2),
         ("twins_v1", os.path.join(core.VERIF, "sim", "c12", "schemas", "twins", "v1"), False, 2),
         ("twins_v2", os.path.join(core.VERIF, "sim", "c12", "schemas", "twins", "v2"), False, 2),
         ("choices", os.path.join(core.VERIF, "sim", "c12", "schemas", "choices"), False, 4),
@@ -80,6 +81,9 @@ def gen_params(rng):
             adv["conventions.class_name.safe_prefix"] = rng.choice(["cls", "type", "T"])
         if rng.random() < 0.3:
             adv["conventions.module_name.case"] = rng.choice(["snakeCase", "pascalCase"])
+        if rng.random() < 0.35:
+            adv["extensions"] = rng.sample([["class", ".*", "verifext.Item", False], ["class", "^[A-M].*", "verifext.Status", True], ["decorator", ".*Type$", "verifext.marker", False],
+                                            ["class", ".*", "verifext.Base", False], ["class", "^P.*", "verifext.Party", False]], rng.choice([1, 2]))
         if rng.random() < 0.4:
             adv["substitutions"] = rng.sample([["class", "(.*)Type$", "\\1Kind"], ["field", "^name$", "title"], ["class", "^Item$", "Entry"], ["package", "urn:cyc:a", "alpha_ns"], ["module", "^b$", "bee"]], rng.choice([1, 2]))
         if adv:
@@ -119,6 +123,8 @@ def gen_env(rng, srcs):
             "HOME": rng.choice(["/nonexistent", "/tmp"]),
             "XSDATA_ANYTHING": rng.choice(["0", "1"]),
         }
+    if rng.random() < 0.2:
+        env["source_copy"] = rng.choice(["mirror/www.w3.org/schemas", "checkout/src", "a b/ü-dir", "x.xsd/json", "deep/" * 6 + "d"])
     if env.get("history") and rng.random() < 0.3:
         env["history_same_package"] = 1  # an earlier generation into the same package name from another directory
     return env
@@ -214,7 +220,7 @@ def minimize_env(source, recursive, params, env, ref, sigkind):
     """Reset environment components to E0 one at a time while the difference persists."""
     best = dict(env)
     trials = 0
-    for key in ("environ", "history_same_package", "history", "cache", "repeat", "dir_seed", "heap", "route", "clock", "hashseed"):
+    for key in ("source_copy", "environ", "history_same_package", "history", "cache", "repeat", "dir_seed", "heap", "route", "clock", "hashseed"):
         default = E0.get(key, 0)
         if best.get(key, default) == default:
             continue
